@@ -374,6 +374,11 @@ static inline int ubuf_block_delete(struct ubuf *ubuf, int offset, int size)
         return UBASE_ERR_INVALID;
 
     struct ubuf_block *head_block = ubuf_block_from_ubuf(ubuf);
+    if (offset < 0)
+        offset += head_block->total_size;
+    if (unlikely(offset < 0 || size < -1 ||
+                 (size != -1 && (size_t)offset + size > head_block->total_size)))
+        return UBASE_ERR_INVALID;
     if (unlikely((ubuf = ubuf_block_get(ubuf, &offset, &size)) == NULL))
         return UBASE_ERR_INVALID;
     int delete_size = size;
@@ -425,6 +430,10 @@ static inline int ubuf_block_truncate(struct ubuf *ubuf, int offset)
         return UBASE_ERR_INVALID;
 
     struct ubuf_block *head_block = ubuf_block_from_ubuf(ubuf);
+    if (offset < 0)
+        offset += head_block->total_size;
+    if (unlikely(offset < 0))
+        return UBASE_ERR_INVALID;
     if (!offset) {
         if (head_block->next_ubuf != NULL) {
             ubuf_free(head_block->next_ubuf);
@@ -472,7 +481,7 @@ static inline int ubuf_block_resize(struct ubuf *ubuf, int offset, int new_size)
     struct ubuf_block *block = ubuf_block_from_ubuf(ubuf);
     if (offset < 0)
         offset += block->total_size;
-    if (unlikely(offset < 0))
+    if (unlikely(offset < 0 || offset > block->total_size || new_size < -1))
         return UBASE_ERR_INVALID;
 
     if (new_size != -1) {
@@ -529,8 +538,15 @@ static inline struct ubuf *ubuf_block_splice(struct ubuf *ubuf, int offset,
                                              int size)
 {
     struct ubuf *new_ubuf;
-    if (unlikely(ubuf->mgr->signature != UBUF_ALLOC_BLOCK ||
-                 (ubuf = ubuf_block_get(ubuf, &offset, &size)) == NULL ||
+    if (unlikely(ubuf->mgr->signature != UBUF_ALLOC_BLOCK))
+        return NULL;
+    struct ubuf_block *head_block = ubuf_block_from_ubuf(ubuf);
+    if (offset < 0)
+        offset += head_block->total_size;
+    if (unlikely(offset < 0 || size < -1 ||
+                 (size != -1 && (size_t)offset + size > head_block->total_size)))
+        return NULL;
+    if (unlikely((ubuf = ubuf_block_get(ubuf, &offset, &size)) == NULL ||
                  !ubase_check(ubuf_control(ubuf, UBUF_SPLICE_BLOCK,
                                            &new_ubuf, offset, size))))
         return NULL;
